@@ -7,6 +7,7 @@ import time
 
 VERIF = os.path.dirname(os.path.dirname(os.path.abspath(__file__)))
 KNOWN_FILE = os.path.join(VERIF, 'known_findings.txt')
+OUT = os.environ.get('VERIF_OUT', VERIF)     # evidence/ and replays/ go here (redirected when probing scratch trees)
 
 
 def jsonable(x):
@@ -168,7 +169,7 @@ class Ctx(Collector):
         printed = []
         n_viol = 0
         n_known = 0
-        rdir = os.path.join(VERIF, 'replays', self.pid)
+        rdir = os.path.join(OUT, 'replays', self.pid)
         for key in sorted(self.viol_count):
             if key in known and known[key][0] == self.pid:
                 n_known += 1
@@ -184,7 +185,7 @@ class Ctx(Collector):
                            'occurrences': self.viol_count[key],
                            'more_cases': [c for c, _ in self.viol[key][1:]],
                            'seed': self.seed, 'tier': self.tier}, f, indent=1, sort_keys=True)
-            printed.append('VIOLATION property=%s replay=%s' % (self.pid, os.path.relpath(fn, VERIF)))
+            printed.append('VIOLATION property=%s replay=%s' % (self.pid, os.path.relpath(fn, VERIF) if OUT == VERIF else fn))
             printed.append('  key=%s occurrences=%d detail=%s' % (key, self.viol_count[key],
                                                                     json.dumps(detail)[:600]))
         for line in printed:
@@ -220,8 +221,8 @@ class Ctx(Collector):
         ev = {'property_id': self.pid, 'tier': self.tier, 'seed': int(self.seed), 'level': self.level,
               'coverage': jsonable(cov), 'assumptions': self.assumptions,
               'wall_s': round(time.time() - self.t0, 2), 'violations': int(n_viol)}
-        os.makedirs(os.path.join(VERIF, 'evidence'), exist_ok=True)
-        fn = os.path.join(VERIF, 'evidence', self.pid + '.json')
+        os.makedirs(os.path.join(OUT, 'evidence'), exist_ok=True)
+        fn = os.path.join(OUT, 'evidence', self.pid + '.json')
         tmp = fn + '.tmp'
         with open(tmp, 'w') as f:
             json.dump(ev, f, indent=1, sort_keys=True)
